@@ -258,7 +258,7 @@ func (s *EncryptionSession) In(seqNum uint32, prio bool) (
 		if prio {
 			return nil, errors.New("prio sequence handler requested key rollover")
 		}
-		s.prioSeqHandler.Reset()
+		s.prioSeqHandler.ResetIn()
 		if err := s.rolloverInKey(); err != nil {
 			return nil, fmt.Errorf("rollover in key: %w", err)
 		}
@@ -295,7 +295,7 @@ func (s *EncryptionSession) Out(prio bool) (
 		if prio {
 			return 0, 0, 0, nil, errors.New("prio sequence handler requested key rollover")
 		}
-		s.prioSeqHandler.Reset()
+		s.prioSeqHandler.ResetOut()
 		if err := s.rolloverOutKey(); err != nil {
 			return 0, 0, 0, nil, fmt.Errorf("rollover in key: %w", err)
 		}
@@ -412,6 +412,23 @@ func (sh *SequenceHandler) Reset() {
 	defer sh.lock.Unlock()
 
 	sh.highest = 0
+	sh.outSeq.Store(0)
+}
+
+// ResetIn resets only the incoming sequence tracking.
+// It is used when the incoming key is rolled over: the outgoing counter
+// belongs to the (unchanged) outgoing key and must keep counting.
+func (sh *SequenceHandler) ResetIn() {
+	sh.lock.Lock()
+	defer sh.lock.Unlock()
+
+	sh.highest = 0
+}
+
+// ResetOut resets only the outgoing sequence counter.
+// It is used when the outgoing key is rolled over: the incoming tracking
+// belongs to the (unchanged) incoming key and must keep its replay window.
+func (sh *SequenceHandler) ResetOut() {
 	sh.outSeq.Store(0)
 }
 
